@@ -246,8 +246,13 @@ func (r *reader) Position() (int, Segment) {
 
 func (r *reader) SetPosition(line int, pos Segment) {
 	r.lineOffset = -1
+	r.peekedLine = nil
 	r.line = line
 	r.pos = pos
+	r.head = pos.Start
+	for r.head > 0 && r.head <= r.sourceLength && r.source[r.head-1] != '\n' {
+		r.head--
+	}
 }
 
 func (r *reader) SetPadding(v int) {
